@@ -11,6 +11,7 @@ O: the property's own laws evaluated directly on the implementation (no model in
    identity, mixed arithmetic is float arithmetic, exact int/float comparison, unrelated
    kinds -> no matching function, lexicographic strings, transitivity on triples."""
 import collections.abc
+import datetime
 import fractions
 import itertools
 import json
@@ -195,6 +196,10 @@ def kind(v):
         return "set"
     if isinstance(v, collections.abc.Mapping):
         return "dict"
+    if isinstance(v, datetime.datetime):
+        return "datetime"
+    if isinstance(v, datetime.timedelta):
+        return "timespan"
     return "other"
 
 
@@ -227,6 +232,10 @@ def enc(v):
         return {"t": "fset" if isinstance(v, frozenset) else "mset", "v": [enc(x) for x in sorted(v)]}
     if k == "dict":
         return {"t": "dict", "v": [[enc(a), enc(b)] for a, b in v.items()]}
+    if k == "datetime":
+        return {"t": "datetime", "v": v.isoformat()}
+    if k == "timespan":
+        return {"t": "timespan", "v": [v.days, v.seconds, v.microseconds]}
     return {"t": "evil" if isinstance(v, Evil) else "other", "v": type(v).__name__}
 
 
@@ -242,6 +251,10 @@ def dec(j):
         return Evil()
     if t == "deep":
         return deep_list(j["n"])
+    if t == "datetime":
+        return datetime.datetime.fromisoformat(j["v"])
+    if t == "timespan":
+        return datetime.timedelta(*j["v"])
     if t == "float":
         return float.fromhex(j["v"])
     if t == "str":
@@ -274,6 +287,10 @@ def canon(v, depth=0):
         return ("dict", tuple(sorted((canon(a), canon(b)) for a, b in v.items())))
     if k == "other":
         return ("other", type(v).__name__)
+    if k == "datetime":
+        return (k, v.isoformat())
+    if k == "timespan":
+        return (k, v.total_seconds())
     return (k, v)
 
 
@@ -498,6 +515,8 @@ def gval(v):
         return "(VSet %s)" % gal.zlist(sorted(v))
     if k == "dict" and all(kind(a) == "int" and kind(b) == "int" for a, b in v.items()):
         return "(VDict %s)" % gdict(v.items())
+    if k in ("datetime", "timespan"):      # dispatch only
+        return "(VOpaque %s)" % ("KDateTime" if k == "datetime" else "KTimespan")
     raise ValueError("value outside the model: %r" % (v,))
 
 
@@ -829,6 +848,21 @@ class Laws:
             if e != ("val", ("bool", a == b)):
                 return ("dict equality", {"a = b": e}, a == b)
 
+    def string_is_string(self, a, b):
+        """a string operand is a string whatever it looks like: against a real datetime / timespan every arithmetic and
+        ordering operator gives 'no matching function', and it equals none of them"""
+        if not (kind(a) == "str" and kind(b) in ("datetime", "timespan")):
+            return None
+        for x, y in ((a, b), (b, a)):
+            for sp in ARITH_ORDER:
+                o = self.E(sp, x, y)
+                if o != NOMATCH:
+                    return ("`%s` between a string and a %s did not give 'no matching function'" % (sp, kind(b)),
+                            {"a %s b" % sp: o, "kinds": (kind(x), kind(y))}, "NoMatchingFunctionException")
+            o = self.E("=", x, y)
+            if o != ("val", ("bool", False)):
+                return ("a string equals a %s" % kind(b), {"a = b": o}, False)
+
     def opaque_operand(self, a, b):
         """an operand that cannot be rendered / compared (host object, very deep nesting): ill-typed applications
         still give exactly 'no matching function'"""
@@ -938,6 +972,32 @@ def oracle_cfg(run, deep, cfg):
                 report_law(run, n, (a,), r, cfg)
     for a, b in itertools.product(vals, vals):
         pair(a, b)
+    # strings that look like values of other kinds: the ordinary laws (lexicographic order together with =, no
+    # match against other kinds, repetition), the literal route, and the rows against real datetimes / timespans
+    strs = LOOKALIKE + (LOOKALIKE_MORE if full else [])
+    for s_ in strs:
+        for n, r in check_laws(run, laws, Laws.SINGLE, (s_,)):
+            if n not in seen:
+                seen.add(n)
+                report_law(run, n, (s_,), r, cfg)
+        for p_ in strs + LOOK_PARTNERS:
+            pair(s_, p_)
+            pair(p_, s_)
+        for t_ in TEMPORAL:
+            run.count("law:string_is_string")
+            r = laws.string_is_string(s_, t_)
+            if r and "string_is_string" not in seen:
+                seen.add("string_is_string")
+                report_law(run, "string_is_string", (s_, t_), r, cfg)
+    if cfg == "CDefault":
+        for _, sp in BINARY:
+            for a, b in itertools.product(strs, strs + ["ab", 1, None]):
+                c = {"cfg": cfg, "ops": [sp], "vals": [a, b]}
+                run.count("law:route")
+                r = route_check(c, "lit")
+                if r and "route-lookalike" not in seen:
+                    seen.add("route-lookalike")
+                    report_special(run, "route", c, r, "lit")
     # operands that are expensive or impossible to render: the error rows must still be 'no matching function',
     # the well-typed rows exact
     for h in (HARD_INTS + [LONG_STR] if cfg != "CQuota" else []):
@@ -985,7 +1045,7 @@ def gen_cases(run):
     scal = [v for v in corpus_values(True, special=True) if kind(v) not in ("list", "tuple", "set", "dict")]
     scal += random_scalars(run.rng, run.n(40, 400))
     bsp = [s for _, s in BINARY]
-    for _ in range(run.n(1500, 100000)):
+    for _ in range(run.n(1000, 100000)):
         r = run.rng.random()
         if r < 0.5:
             pool = [v for v in scal if family(v) == "num"]
@@ -997,7 +1057,7 @@ def gen_cases(run):
             pool = scal
             ops = [run.rng.choice(bsp), run.rng.choice(bsp)]
         cases.append({"ops": ops, "vals": [run.rng.choice(pool) for _ in range(3)]})
-    cases += route_cases(run) + quota_cases(run) + hard_cases(run)
+    cases += route_cases(run) + quota_cases(run) + hard_cases(run) + lookalike_cases(run)
     # the configurations whose options touch dispatch: the whole grid again, over a smaller corpus in the quick tier
     for cfg in CONFIGS[1:3]:
         cvals = SMALL if run.quick else corpus_values(False, special=True)
@@ -1052,6 +1112,41 @@ def hard_cases(run):
                         c = {"cfg": cfg, "hard": True, "ops": [sp], "vals": vals}
                         if not hard_slow(c):
                             out.append(c)
+    return out
+
+
+# strings that LOOK like values of other kinds: they are strings all the same
+LOOKALIKE = ["1999-12-31", "2021-03-04", "2021-03-04T05:06:07", "20210304", "12", "1e3", "true", "null"]
+LOOKALIKE_MORE = ["2021-03-04T05:06:07+02:00", "2021-03-04 05:06:07.250000", "0x10", " 7 ", "-1", "2.5", "false", "nan",
+                  "P1D", "1 day, 0:00:00", "1:00:00", "[1, 2]", "2021-W09-4"]
+TEMPORAL = [datetime.datetime(2021, 3, 4, 5, 6, 7, tzinfo=datetime.timezone.utc), datetime.timedelta(days=1)]
+LOOK_PARTNERS = [None, True, 1, 2.5, "ab", (1, 2)]
+
+
+def lookalike_cases(run):
+    """every operator over strings that look like dates, numerals, keywords or durations - against each other,
+    against a partner of every kind and against real datetime/timespan values - as variables and as literals"""
+    out = []
+    strs = LOOKALIKE + ([] if run.quick else LOOKALIKE_MORE)
+    for cfg in (("CDefault",) if run.quick else CONFIGS[:3]):
+        pairs = list(itertools.product(strs, strs))
+        for s_ in strs:
+            for p_ in LOOK_PARTNERS:
+                pairs += [(s_, p_), (p_, s_)]
+        for _, sp in BINARY:
+            for a, b in pairs:
+                out.append({"cfg": cfg, "ops": [sp], "vals": [a, b]})
+                if cfg == "CDefault" and (not run.quick or (kind(a) == "str" and kind(b) == "str")):
+                    out.append({"cfg": cfg, "route": "lit", "ops": [sp], "vals": [a, b]})
+        for sp in ARITH_ORDER:      # = / != / in with an opaque operand have no modelled value
+            for s_ in strs:
+                for t_ in TEMPORAL:
+                    out.append({"cfg": cfg, "ops": [sp], "vals": [s_, t_]})
+                    out.append({"cfg": cfg, "ops": [sp], "vals": [t_, s_]})
+        for sp in [u for _, u in UNARY]:
+            for s_ in strs:
+                out.append({"cfg": cfg, "ops": [sp], "vals": [s_]})
+                out.append({"cfg": cfg, "route": "lit", "ops": [sp], "vals": [s_]})
     return out
 
 
